@@ -349,7 +349,8 @@ def tlc_expect_ok(r, what):
 
 
 def zero_coverage(r, ignore=()):
-    return sorted(a for a, (t, g) in r.coverage.items() if t == 0 and a not in ignore and a not in ("Init",))
+    # TLC prints "<Action ...>: distinct:generated"; an action that generated no successor at all was never enabled
+    return sorted(a for a, (t, g) in r.coverage.items() if g == 0 and a not in ignore and a not in ("Init",))
 
 
 # ----------------------------------------------------------------------------------------------
@@ -554,7 +555,7 @@ class Ctx:
             with open(f, "rb") as fh:
                 for ln in fh:
                     nev += 1
-                    if ln.startswith(b'{"op":"reset"') or ln.startswith(b'{"e":"Reset"') or ln.startswith(b'{"e":"reset"'):
+                    if ln.startswith(b'{"k":0,') or ln.startswith(b'{"op":"reset"') or ln.startswith(b'{"e":"Reset"') or ln.startswith(b'{"e":"reset"'):
                         nex += 1
         self.evaluations += nev
         self._rec_exec = getattr(self, "_rec_exec", 0) + nex
